@@ -68,6 +68,7 @@ class TcpConnection(object):
         self.__readBuffer = bytes()
         self.__writeBuffer = bytes()
         self.__lastReadTime = monotonicTime()
+        self.__lastSendTime = 0
         self.__timeout = timeout
         self.__poller = poller
         self.__keepalive = keepalive
@@ -145,6 +146,12 @@ class TcpConnection(object):
         if self.encryptor:
             data = self.encryptor.encrypt_at_time(data, int(monotonicTime()))
         data = struct.pack('i', len(data)) + data
+        now = monotonicTime()
+        if now - self.__lastSendTime > self.__timeout and now - self.__lastReadTime > self.__timeout:
+            # Nothing was sent for longer than the timeout, so nothing was due from the peer either
+            # (links between followers are idle for as long as the leader lives): its silence starts to count now.
+            self.__lastReadTime = now
+        self.__lastSendTime = now
         self.__writeBuffer += data
         self.__trySendBuffer()
         if self.__writeBuffer and self.__fileno is not None and self.__state == CONNECTION_STATE.CONNECTED:
@@ -188,9 +195,11 @@ class TcpConnection(object):
             self.disconnect()
             return
 
-        self.__processConnectionTimeout()
-        if self.state == CONNECTION_STATE.DISCONNECTED:
-            return
+        if not eventType & POLL_EVENT_TYPE.READ:
+            # (data that arrives on a link that was idle proves the peer alive; reading refreshes the timer)
+            self.__processConnectionTimeout()
+            if self.state == CONNECTION_STATE.DISCONNECTED:
+                return
 
         if eventType & POLL_EVENT_TYPE.READ or eventType & POLL_EVENT_TYPE.WRITE:
             if self.__socket.getsockopt(socket.SOL_SOCKET, socket.SO_ERROR):
